@@ -50,9 +50,9 @@ theorem find_append (q : Path) (a b : Dir) :
     · simp [find, hq]
     · simp [find, hq, ih]
 
-theorem find_filterMap_key (f : Path → Bool) (g : Rec → Rec) (q : Path) (d : Dir) :
-    find q (d.filterMap (fun e => if f e.1 then some (e.1, g e.2) else none))
-      = if f q then (find q d).map g else none := by
+theorem find_filterMap_key (f : Path → Bool) (g : Path → Rec → Rec) (q : Path) (d : Dir) :
+    find q (d.filterMap (fun e => if f e.1 then some (e.1, g e.1 e.2) else none))
+      = if f q then (find q d).map (g q) else none := by
   induction d with
   | nil => simp [find]
   | cons e rest ih =>
@@ -68,9 +68,9 @@ theorem find_filterMap_key (f : Path → Bool) (g : Rec → Rec) (q : Path) (d :
       · simp [hq]
 
 theorem find_load (q : Path) (d : Dir) :
-    find q (load d) = if visible d q then (find q d).map norm else none := by
+    find q (load d) = if visible d q then (find q d).map (norm d q) else none := by
   unfold load
-  exact find_filterMap_key (visible d) norm q d
+  exact find_filterMap_key (visible d) (norm d) q d
 
 theorem find_isSome_iff_mem (q : Path) (d : Dir) : (find q d).isSome ↔ ∃ r, (q, r) ∈ d := by
   induction d with
@@ -173,12 +173,13 @@ theorem visible_mono {d d' : Dir}
 
 /-- benign directory tree: the root exists, every directory is reachable by `load` (all proper
     ancestors exist and have a `category_name`), a directory without `category_name` holds no
-    year files, and nothing lies deeper than three levels -/
+    year files, nothing lies deeper than three levels, year files lie at level three -/
 structure WF (d : Dir) : Prop where
   root : (find [] d).isSome = true
   vis : ∀ p r, find p d = some r → visible d p = true
   cat : ∀ p r, find p d = some r → r.cat.isSome = true ∨ r.files = []
   depth : ∀ p r, find p d = some r → p.length ≤ 3
+  leafFiles : ∀ p r, find p d = some r → r.files ≠ [] → p.length = 3
 
 theorem find_mkdirIfMissing (p q : Path) (d : Dir) :
     find q (mkdirIfMissing p d) = if q = p ∧ find p d = none then some emptyRec else find q d := by
@@ -352,20 +353,41 @@ theorem WF_congr {d d' : Dir} (h : ∀ q, find q d' = find q d) (w : WF d) : WF 
   vis := fun p r hp => by rw [visible_congr h]; exact w.vis p r (by rwa [h] at hp)
   cat := fun p r hp => w.cat p r (by rwa [h] at hp)
   depth := fun p r hp => w.depth p r (by rwa [h] at hp)
+  leafFiles := fun p r hp => w.leafFiles p r (by rwa [h] at hp)
 
-theorem norm_of_wf {r : Rec} (h : r.cat.isSome = true ∨ r.files = []) : norm r = r := by
+theorem childNames_nil {d : Dir} (w : WF d) {p : Path} (hp : p.length = 3) : childNames d p = [] := by
+  unfold childNames
+  rw [List.map_eq_nil_iff, List.filter_eq_nil_iff]
+  rintro ⟨q, r⟩ hm
+  simp only [Bool.and_eq_true, decide_eq_true_eq, not_and]
+  intro hl
+  exfalso
+  obtain ⟨r', hr'⟩ := Option.isSome_iff_exists.1 ((find_isSome_iff_mem q d).2 ⟨r, hm⟩)
+  have := w.depth q r' hr'
+  omega
+
+theorem norm_of_wf {d : Dir} (w : WF d) {p : Path} {r : Rec} (h : find p d = some r) : norm d p r = r := by
   unfold norm
-  rcases h with h | h
-  · simp [h]
-  · cases r with
-    | mk c f =>
-      cases c <;> simp_all [emptyRec]
+  by_cases hf : r.files = []
+  · rcases w.cat p r h with hc | _
+    · simp [hc, keepFiles, hf]; cases r; simp_all
+    · cases r with
+      | mk c f => cases c <;> simp_all [emptyRec, keepFiles]
+  · have hc : r.cat.isSome = true := by
+      rcases w.cat p r h with hc | hc
+      · exact hc
+      · exact absurd hc hf
+    have hk : keepFiles d p r.files = r.files := by
+      unfold keepFiles
+      rw [childNames_nil w (w.leafFiles p r h hf)]
+      simp
+    simp [hc, hk]
 
 theorem find_load_wf {d : Dir} (w : WF d) (q : Path) : find q (load d) = find q d := by
   rw [find_load]
   cases hf : find q d with
   | none => simp
-  | some r => simp [w.vis q r hf, norm_of_wf (w.cat q r hf)]
+  | some r => simp [w.vis q r hf, norm_of_wf w hf]
 
 /-- the invariant of the sequential theorem -/
 structure Inv (s : St) : Prop where
@@ -392,6 +414,7 @@ theorem WF_initDisk : WF initDisk where
   vis := by intro p r h; simp [initDisk, find] at h; rw [h.1]; exact visible_nil _
   cat := by intro p r h; simp [initDisk, find] at h; right; rw [← h.2]; rfl
   depth := by intro p r h; simp [initDisk, find] at h; rw [h.1]; simp
+  leafFiles := by intro p r h hf; simp [initDisk, find] at h; rw [← h.2] at hf; exact absurd rfl hf
 
 theorem Inv_init : Inv St.init where
   same := fun p => find_load_wf WF_initDisk p
@@ -442,7 +465,15 @@ theorem atb_disk {items cats : List String} {d d1 d2 : Dir} (w : WF d) (h3 : ite
         obtain ⟨_, k, hk, hpk⟩ := P.new p r hq hp
         rw [hpk]; simp; omega
       | some ro => exact w.depth p ro hq
-    refine ⟨?_, ?_, ?_, ?_⟩
+    have hleaf1 : ∀ p r, find p d1 = some r → r.files ≠ [] → p.length = 3 := by
+      intro p r hp hf
+      cases hq : find p d with
+      | none => exact absurd (P.new p r hq hp).1 hf
+      | some ro =>
+        obtain ⟨r', h1, h2, _⟩ := P.old p ro hq
+        rw [hp] at h1; cases h1
+        exact w.leafFiles p ro hq (by rw [← h2]; exact hf)
+    refine ⟨?_, ?_, ?_, ?_, ?_⟩
     · obtain ⟨r0, hr0⟩ := Option.isSome_iff_exists.1 w.root
       obtain ⟨r', h1, _⟩ := P.old [] r0 hr0
       rw [hd2]; simp [hne.symm, h1]
@@ -464,6 +495,11 @@ theorem atb_disk {items cats : List String} {d d1 d2 : Dir} (w : WF d) (h3 : ite
       by_cases h1 : p = items
       · rw [h1]; omega
       · simp [h1] at hp; exact hdepth1 p r hp
+    · intro p r hp hf
+      rw [hd2] at hp
+      by_cases h1 : p = items
+      · rw [h1]; exact h3
+      · simp [h1] at hp; exact hleaf1 p r hp hf
 
 
 theorem isPre_singleton (s : String) (q : Path) : isPre [s] q = true ↔ ∃ t, q = s :: t := by
@@ -595,7 +631,7 @@ theorem addTimeBucket_inv {items cats : List String} {y : Int} {sch : Nat} {st s
             · subst h1; rw [hrl] at ha; cases ha; simp [hcat]
             · simp [h1]; exact ⟨ra, ha, hcc⟩
           have w3 : WF d3 := by
-            refine ⟨?_, ?_, ?_, ?_⟩
+            refine ⟨?_, ?_, ?_, ?_, ?_⟩
             · rw [hd3]; simp [hne.symm]; exact w2.root
             · intro p r hp
               have : ∃ r2, find p d2 = some r2 := by
@@ -615,6 +651,11 @@ theorem addTimeBucket_inv {items cats : List String} {y : Int} {sch : Nat} {st s
               by_cases h1 : p = items
               · rw [h1]; omega
               · simp [h1] at hp; exact w2.depth p r hp
+            · intro p r hp hf
+              rw [hd3] at hp
+              by_cases h1 : p = items
+              · rw [h1]; exact h3
+              · simp [h1] at hp; exact w2.leafFiles p r hp hf
           cases items with
           | nil => exact absurd rfl hne
           | cons s rest =>
@@ -709,6 +750,12 @@ theorem WF_removeAll {d : Dir} (w : WF d) {p : Path} (hp : p ≠ []) : WF (remov
     by_cases hpq : isPre p q = true
     · simp [hpq] at hq
     · simp [hpq] at hq; exact w.depth q r hq
+  leafFiles := by
+    intro q r hq hf
+    rw [find_removeAll] at hq
+    by_cases hpq : isPre p q = true
+    · simp [hpq] at hq
+    · simp [hpq] at hq; exact w.leafFiles q r hq hf
 
 theorem Inv_rmBoth {st : St} (I : Inv st) {p : Path} (hp : p ≠ []) :
     Inv ⟨removeAll p st.tree, [], removeAll p st.disk⟩ where
@@ -841,7 +888,7 @@ theorem removeTimeBucket_inv {items : List String} {st st' : St} {res : Res}
 /-! ## writes, creates, histories -/
 
 theorem WF_set_files {d : Dir} (w : WF d) {p : Path} {r r' : Rec} (hp : find p d = some r)
-    (hc : r'.cat = r.cat) (hs : r.cat.isSome = true) : WF (set p r' d) where
+    (hc : r'.cat = r.cat) (hs : r.cat.isSome = true) (hl : p.length = 3) : WF (set p r' d) where
   root := by
     rw [find_set]; split
     · rfl
@@ -872,6 +919,12 @@ theorem WF_set_files {d : Dir} (w : WF d) {p : Path} {r r' : Rec} (hp : find p d
     by_cases h1 : q = p
     · rw [h1]; exact w.depth p r hp
     · simp [h1] at hq; exact w.depth q rq hq
+  leafFiles := by
+    intro q rq hq hf
+    rw [find_set] at hq
+    by_cases h1 : q = p
+    · rw [h1]; exact hl
+    · simp [h1] at hq; exact w.leafFiles q rq hq hf
 
 theorem addFile_inv {p : Path} {y : Int} {st st' : St} {res : Res}
     (I : Inv st) (h : addFile p y st = (st', res)) : Inv st' := by
@@ -917,7 +970,7 @@ theorem addFile_inv {p : Path} {y : Int} {st st' : St} {res : Res}
             · rw [hff] at hf; cases hf
           refine ⟨fun q => ?_, I.stale, ?_⟩
           · simp only [find_set, I.same, hf]
-          · exact WF_set_files I.wf hpd rfl hcs
+          · exact WF_set_files I.wf hpd rfl hcs (I.wf.leafFiles p r hpd (by rw [hf]; simp))
 
 theorem writeYears_inv (p : Path) (years : List Int) : ∀ (cur : Int) (st st' : St) (res : Res),
     Inv st → writeYears p cur years st = (st', res) → Inv st' := by
